@@ -130,12 +130,24 @@ class SkipAheadIntersector(Intersector):
         if point0 is None or point1 is None:
             return
 
-        assert point0 is not None and point1 is not None and point0[:-1] == point1[:-1]
-
         fiber = point0[:-1]
         curr = None
 
         while point0 and point1:
+            # A finger left on the last, unmatched row of an earlier fiber (the
+            # other side ran out first, or was empty) is forwarded without
+            # counting: no run or match may span two fibers
+            if point0[:-1] != point1[:-1]:
+                if point0[:-1] < point1[:-1]:
+                    point0, i0 = get_next(trace0, i0)
+                else:
+                    point1, i1 = get_next(trace1, i1)
+
+                curr = None
+                continue
+
+            fiber = point0[:-1]
+
             if point0 == point1:
                 self.num_intersects += 1
                 curr = None
@@ -226,11 +238,21 @@ class TwoFingerIntersector(Intersector):
         if point0 is None or point1 is None:
             return
 
-        assert point0 is not None and point1 is not None and point0[:-1] == point1[:-1]
-
         fiber = point0[:-1]
 
         while point0 and point1:
+            # A finger left on the last, unmatched row of an earlier fiber (the
+            # other side ran out first, or was empty) is forwarded without
+            # counting: no comparison may span two fibers
+            if point0[:-1] != point1[:-1]:
+                if point0[:-1] < point1[:-1]:
+                    point0, i0 = get_next(trace0, i0)
+                else:
+                    point1, i1 = get_next(trace1, i1)
+
+                continue
+
+            fiber = point0[:-1]
             self.num_intersects += 1
 
             if point0 == point1:
